@@ -38,6 +38,15 @@ def grid_from_mesh(mesh, **kw):
     )
 
 
+def cartesian_kw(mesh, radius):
+    """from_topology keywords supplying the nodes' Cartesian coordinates on a sphere of the given radius (what an
+    MPAS or Exodus source with its own sphere radius delivers)."""
+    from . import meshgen
+
+    xyz = meshgen.mesh_xyz(mesh) * float(radius)
+    return {"node_x": np.ascontiguousarray(xyz[:, 0]), "node_y": np.ascontiguousarray(xyz[:, 1]), "node_z": np.ascontiguousarray(xyz[:, 2])}
+
+
 def face_corner_xyz(grid):
     """Per face: list of unit vectors of its corners as the *grid* reports them (lon/lat)."""
     from . import sphere as S
